@@ -276,6 +276,11 @@ class ComposedNode(ConfigNode):
 
         def clear(self):
             self._children.clear()
+            # (list and mapping nodes hold their entries a second time, as python containers)
+            if isinstance(self, list):
+                list.clear(self)
+            elif isinstance(self, dict):
+                dict.clear(self)
 
         def on_preprocess_impl(self, path, builder):
             return self.ayns.map_nodes(lambda child_path, node: node.ayns.on_preprocess(child_path, builder), prefix=path, cache_results=True, leafs_only=False, include_self=False, recurse=False)
